@@ -514,6 +514,13 @@ func (e *Engine) contractWrites(ws *WriteSet, fc *FuncContract) {
 				ws.Ghosts[id.Name] = true
 				continue
 			}
+			if id.Name == "dbstate" {
+				for k, srt := range dbStateKeys {
+					ws.Keys[k] = true
+					ws.Sorts[k] = srt
+				}
+				continue
+			}
 			if id.Name == "syncmaps" {
 				ws.Keys["MD|sync.Map"], ws.Keys["MV|sync.Map|$tag"], ws.Keys["MV|sync.Map|$val"] = true, true, true
 				ws.Sorts["MD|sync.Map"], ws.Sorts["MV|sync.Map|$tag"], ws.Sorts["MV|sync.Map|$val"] = "Bool", "Int", "Int"
@@ -980,6 +987,12 @@ func (x *Exec) frameSpecOf(st *State) *frameSpec {
 			}
 			if id.Name == "syncmaps" {
 				allKeys["MD|sync.Map"], allKeys["MV|sync.Map|$tag"], allKeys["MV|sync.Map|$val"] = true, true, true
+				continue
+			}
+			if id.Name == "dbstate" {
+				for k := range dbStateKeys {
+					allKeys[k] = true
+				}
 				continue
 			}
 		}
